@@ -30,7 +30,7 @@ def real_part(ctx):
     from mbt import batch
 
     iso = [c for v, c in sorted(tc.ISOLATED.items()) if os.path.exists(c[0])]
-    jobs = [(kind, "thread", None) for kind in ("popen", "socket", "via")]
+    jobs = [(kind, "thread", None) for kind in ("popen", "socket", "via")] + [(kind, "thread", None, "halfclose") for kind in ("popen", "via", "socket")]
     if iso:
         jobs += [("via", "thread", iso[-1]), ("python", "thread", iso[0])]
     if not ctx.quick:
